@@ -83,6 +83,45 @@ theorem failure_isolated_filter (s : Store) (wl : List Item) (hp : wl.Pairwise (
     (processAll b T false s (wl.filter (good b T s))).store :=
   foldl_filter_good b T wl (State.init s) rfl hp
 
+/-- the locations of the failing items' sources -/
+def badLocations (s : Store) (wl : List Item) : List Path :=
+  (wl.filter (fun x => !good b T s x)).map (fun x => resolve b x.source)
+
+/-- **failure_isolated (deletion form, processing part).** Without fail-fast: delete the sources
+of the failing items from the store and process only the healthy items — the final store is the
+same as the one of the full batch at every location other than the deleted sources, and every
+healthy item has the same status. Healthy files are processed as if the bad ones were absent. -/
+theorem failure_isolated_deleted (s : Store) (wl : List Item) (hp : wl.Pairwise (Indep b)) :
+    AgreeOff (badLocations b T s wl) (processAll b T false s wl).store
+      (processAll b T false (eraseStore s (badLocations b T s wl)) (wl.filter (good b T s))).store ∧
+    ∀ x ∈ wl, good b T s x = true →
+      (processAll b T false (eraseStore s (badLocations b T s wl)) (wl.filter (good b T s))).status
+        x.source = (processAll b T false s wl).status x.source := by
+  have hfp : ∀ x ∈ wl.filter (good b T s), Footprint b (badLocations b T s wl) x := by
+    intro x hx
+    obtain ⟨hxw, hxg⟩ := List.mem_filter.mp hx
+    apply footprint_of_indep
+    intro p hpD
+    simp only [badLocations, List.mem_map, List.mem_filter, Bool.not_eq_true'] at hpD
+    obtain ⟨d, ⟨hdw, hdg⟩, e⟩ := hpD
+    have hne : x ≠ d := by
+      intro e'; subst e'; rw [hxg] at hdg; cases hdg
+    exact ⟨d, pairwise_indep_of_mem hp hxw hdw hne, e.symm⟩
+  have hag := foldl_agree b T false (badLocations b T s wl) (wl.filter (good b T s))
+    (State.init s) (State.init (eraseStore s (badLocations b T s wl)))
+    (agreeOff_erase s _) rfl rfl hfp
+  constructor
+  · rw [failure_isolated_filter b T s wl hp]
+    exact hag.1
+  · intro x hx hg
+    have hpf : (wl.filter (good b T s)).Pairwise (Indep b) := hp.sublist List.filter_sublist
+    have h1 := (failure_isolated b T s _ hpf x (List.mem_filter.mpr ⟨hx, hg⟩)).1
+    have h2 := (failure_isolated b T s wl hp x hx).1
+    have h3 : (processAll b T false (eraseStore s (badLocations b T s wl))
+        (wl.filter (good b T s))).status = (processAll b T false s (wl.filter (good b T s))).status :=
+      hag.2.1.symm
+    rw [h3, h1, h2]
+
 /-- **nothing else is written.** Whatever the order and the fail-fast flag, a location that is
 no item's destination (and, on the file system, not a strict ancestor of a destination — those
 may be created as directories) has its initial content at the end. In particular input files are
@@ -302,6 +341,94 @@ theorem mirror_bijective (t : Tree) (input out : Path) (order : List Path) (wl :
       · exact hno.1 h
     · exact (pairwise_indep_of_mem hp hx hy hxy).2.2.2.1
 
+/-- **failure_isolated (deletion form, end to end).** Inside H11, directory mode or in place,
+without fail-fast: let `D` be the locations of the files that fail in the batch. Collecting on the
+tree *with those files deleted* (enumerated in the induced order) yields exactly the healthy
+items of the original work list, and processing them gives the same final tree as the full batch
+at every location outside `D`, with the same status for every healthy file: healthy files are
+processed exactly as if the bad ones were absent. -/
+theorem failure_isolated_as_if_absent (t : Tree) (input : Path) (output : Option Path)
+    (order : List Path) (wl : List Item) (hH : h11 b t input output = true)
+    (hmode : ∀ out, output = some out → isFile b t input = false)
+    (hperm : order.Perm (collectWorkRes b t (normalize input)))
+    (hc : collectWorkFrom b t input output order = .ok wl) :
+    (order.filter (fun s => !(badLocations b T t.toStore wl).contains
+        (resolve b (normalize (normalize s))))).Perm
+      (collectWorkRes b (pruneTree t (badLocations b T t.toStore wl)) (normalize input)) ∧
+    collectWorkFrom b (pruneTree t (badLocations b T t.toStore wl)) input output
+      (order.filter (fun s => !(badLocations b T t.toStore wl).contains
+        (resolve b (normalize (normalize s))))) = .ok (wl.filter (good b T t.toStore)) ∧
+    AgreeOff (badLocations b T t.toStore wl) (processAll b T false t.toStore wl).store
+      (processAll b T false (pruneTree t (badLocations b T t.toStore wl)).toStore
+        (wl.filter (good b T t.toStore))).store ∧
+    ∀ x ∈ wl, good b T t.toStore x = true →
+      (processAll b T false (pruneTree t (badLocations b T t.toStore wl)).toStore
+        (wl.filter (good b T t.toStore))).status x.source =
+      (processAll b T false t.toStore wl).status x.source := by
+  have hp := collect_independent b t input output order wl hH hperm hc
+  obtain ⟨hok, _⟩ := h11_spec b t input output hH
+  have hnn := normalize_nin_fix _ hok.sbfix
+  have hsrc : ∀ rel, rel.all Comp.isNormal = true → srcBase (normalize input) ++ rel ≠ [] →
+      resolve b (srcBase (normalize input) ++ rel) = rstem b (srcBase (normalize input)) ++ rel := by
+    intro rel hn hne
+    apply resolve_append b _ rel hn
+    cases hb : b.fsys
+    · rw [rstem_mem b _ hb, hok.sbfix]; exact hne
+    · simp [hok.anz hb]
+  have hnorm2 : ∀ s ∈ order, normalize (normalize s) = normalize s := by
+    intro s hs
+    have : s ∈ collectWorkRes b t (normalize input) := hperm.mem_iff.mp hs
+    obtain ⟨rel, _, hn, e, hne, _⟩ := walk_mirror b t _ hok hnn s (List.mem_filter.mp this).1
+    rw [e]; exact normalize_base_append _ rel hok.sbfix hn hne
+  -- on the work list, "not located in D" is "healthy"
+  have hfilter : wl.filter (fun it => !(badLocations b T t.toStore wl).contains (resolve b it.source))
+      = wl.filter (good b T t.toStore) := by
+    apply List.filter_congr
+    intro x hx
+    cases hg : good b T t.toStore x
+    · have : resolve b x.source ∈ badLocations b T t.toStore wl := by
+        simp only [badLocations, List.mem_map, List.mem_filter, Bool.not_eq_true']
+        exact ⟨x, ⟨hx, hg⟩, rfl⟩
+      simpa using this
+    · cases hc' : (badLocations b T t.toStore wl).contains (resolve b x.source) with
+      | false => rfl
+      | true =>
+        have hmem := List.contains_iff_mem.mp hc'
+        simp only [badLocations, List.mem_map, List.mem_filter, Bool.not_eq_true'] at hmem
+        obtain ⟨d, ⟨hdw, hdg⟩, e⟩ := hmem
+        have hne : x ≠ d := by
+          intro e'; subst e'; rw [hg] at hdg; cases hdg
+        exact absurd e.symm (pairwise_indep_of_mem hp hx hdw hne).2.1
+  refine ⟨?_, ?_, ?_⟩
+  · rw [collectWorkRes_prune b t _ _ hok hnn hsrc]
+    exact hperm.filter _
+  · rw [← hfilter]
+    cases output with
+    | none =>
+      simp only [collectWorkFrom, Except.ok.injEq] at hc ⊢
+      subst hc
+      have hcongr : order.filter (fun s => !(badLocations b T t.toStore
+            (order.foldl (fun acc s => addSourceIfMissing acc s none) [])).contains
+            (resolve b (normalize (normalize s)))) =
+          order.filter (fun s => !(badLocations b T t.toStore
+            (order.foldl (fun acc s => addSourceIfMissing acc s none) [])).contains
+            (resolve b (normalize s))) := by
+        apply List.filter_congr
+        intro s hs
+        rw [hnorm2 s hs]
+      rw [hcongr]
+      exact inPlaceLoop_filter (fun p => !(badLocations b T t.toStore
+        (order.foldl (fun acc s => addSourceIfMissing acc s none) [])).contains (resolve b p))
+        order []
+    | some out =>
+      have hf := hmode out rfl
+      simp only [collectWorkFrom, hf, Bool.false_eq_true, if_false] at hc
+      simp only [collectWorkFrom, isFile_prune b t _ input hf, Bool.false_eq_true, if_false]
+      exact collectDirLoop_filter (fun p => !(badLocations b T t.toStore wl).contains (resolve b p))
+        _ out order [] wl hc
+  · rw [pruneTree_toStore]
+    exact failure_isolated_deleted b T t.toStore wl hp
+
 /-- `a.lua`, `b.luau`, `n.txt` -/
 def nmA : Bytes := [97, 46, 108, 117, 97]
 def nmB : Bytes := [98, 46, 108, 117, 97, 117]
@@ -337,6 +464,18 @@ example : h11 exFsB exFsTree [.parent, .normal [0], .normal [1]]
 example : (collectWork exFsB exFsTree [.parent, .normal [0], .normal [1]]
     (some [.normal [9]])).toOption.map List.length = some 2 := by decide
 
+-- non-vacuity of `failure_isolated_as_if_absent`: `src/sub/b.luau` fails, one location is deleted
+def exT0 : Path → Bytes → Except Nat Bytes := fun p c =>
+  if p = [.normal [1], .normal [2], .normal nmB] then .error 1 else .ok (c ++ [7])
+def exWl : List Item :=
+  [⟨[.normal [1], .normal nmA], [.normal [9], .normal nmA]⟩,
+   ⟨[.normal [1], .normal [2], .normal nmB], [.normal [9], .normal [2], .normal nmB]⟩]
+example : badLocations exMem exT0 exTree.toStore exWl = [[.normal [1], .normal [2], .normal nmB]] := by
+  decide
+example : (pruneTree exTree (badLocations exMem exT0 exTree.toStore exWl)).length = 3 := by decide
+example : exWl.filter (good exMem exT0 exTree.toStore) =
+    [⟨[.normal [1], .normal nmA], [.normal [9], .normal nmA]⟩] := by decide
+
 /-! ### regression: the witnesses of the fixed findings C11-F1 / C11-F1m
 
 Before the fixes `darklua process . ../out` aborted with "unable to remove path prefix `.`" and
@@ -368,9 +507,9 @@ theorem dot_collects (t : Tree) (out : Path) (k : Path) (e : Entry) (hk : (k, e)
     ∃ wl, collectWork exMem t [.cur] (some out) = .ok wl ∧
       ∃ it ∈ wl, it.source = normalize (normalize (normalize k)) := by
   have hwalkmem : normalize k ∈ collectWorkRes exMem t (normalize [.cur]) := by
-    simp only [collectWorkRes, List.mem_filter, hlua, and_true, walk, exMem, Bool.false_eq_true,
-      if_false, List.mem_filterMap]
-    exact ⟨(k, e), hk, by simp [normalize_cur, isWithin, hrel]⟩
+    simp only [collectWorkRes, List.mem_filter, hlua, and_true, walk, exMem, Bool.false_and,
+      Bool.false_eq_true, if_false, List.mem_filterMap]
+    exact ⟨(k, e), hk, by simp [walkEntry, normalize_cur, isWithin, hrel]⟩
   -- with the empty prefix the loop cannot fail
   have hloop : ∀ (order : List Path) (acc : List Item), ∃ wl,
       collectDirLoop [] out order acc = .ok wl := by
